@@ -123,7 +123,13 @@ def run(ctx):
             else:
                 continue
             shapes.append(("L-" + name, nv, Fl, Pl, "some"))
+    # an icosphere stretched along z (very unequal edge lengths: paths between singularities differ a lot from hop counts)
+    import mouette as M
+    ico = M.procedural.icosphere(1)
+    Pico = [[int(round(1000 * float(p[0]))), int(round(1000 * float(p[1]))), int(round(2500 * float(p[2])))] for p in ico.vertices]
+    shapes.append(("stretched-icosphere", len(Pico), [[int(v) for v in f] for f in ico.faces], Pico, "some"))
     cases = []
+    corpus = {"stretched-icosphere": [[37, 12, 39], [12, 37, 39], [39, 12, 37]]}       # orders of one singularity set: the cutter's answer must be a disk for each
     for name, nv, F, P, how in shapes:
         if how == "all":
             subsets = [list(s) for k in range(0, nv + 1) for s in itertools.combinations(range(nv), k)]
@@ -133,6 +139,7 @@ def run(ctx):
             cnt = (40 if how == "many" else 12) * (3 if thorough else 1)
             subsets = [[]] + [[v] for v in rng.sample(range(nv), min(3, nv))]
             subsets += [rng.sample(range(nv), rng.randint(2, min(6, nv))) for _ in range(cnt)]
+            subsets += [list(x) for x in corpus.get(name, []) if max(x) < nv]
         evs = []
         for s in subsets:
             evs.append({"S": s, "with_features": 0})
